@@ -395,3 +395,23 @@ Proof.
   eapply R_rem with (o := mkOrigin 0 [[]]) (ss := []); [reflexivity | reflexivity | left; reflexivity |].
   exact (R_done refute_ii _ _ _ _).
 Qed.
+
+(* Clause (iv) is false on graphs with a CFG cycle: loop 1 <-> 2, binding 0 (node 1) from binding 1,
+   binding 1 (node 2) from binding 0, binding 2 at the entry node; no node conditions.  A fresh
+   solver accepts {0,1,2} at node 4 and rejects {1,2}: whether the provisional memo entry is taken
+   for an answer depends on the seen_states rule `new_positions.size() > 1`, hence on the goal set.
+   The last component shows the history dependence (C08): after {0,1,2} the same solver accepts {1,2}. *)
+Definition refute_iv : graph :=
+  mkGraph [mkNode [] None; mkNode [0; 2] None; mkNode [1] None; mkNode [2] None; mkNode [3] None]
+          [mkBinding 0 [mkOrigin 1 [[1]]]; mkBinding 1 [mkOrigin 2 [[0]]]; mkBinding 2 [mkOrigin 0 [[]]]].
+
+Theorem subset_closed_refuted_lemma :
+  exists g fuel n S S', wf_graph g = true /\ no_conditions g = true /\ incl S' S /\
+    solve_fresh fuel g S n = Some true /\ solve_fresh fuel g S' n = Some false /\
+    option_map snd (run_queries fuel g sstate_empty [(S, n); (S', n)]) = Some [true; true].
+Proof.
+  exists refute_iv, 100, 4, [0; 1; 2], [1; 2].
+  split; [reflexivity|]. split; [reflexivity|].
+  split; [intros x [H|[H|[]]]; subst; simpl; auto|].
+  split; [vm_compute; reflexivity|]. split; vm_compute; reflexivity.
+Qed.
